@@ -282,17 +282,19 @@ func c07History(c *engine.Case) *engine.Result {
 				}{2}
 			}
 		}
+		// x is composite-typed: stale state inside the type comparison only shows on composite types
+		ln := func(xs ...float64) *ref.V { return ref.ListV(gen.Num, nums(xs...)...) }
 		switch v {
 		case 0:
-			return mk(r, real.Binding{Name: "x", V: ref.NumV(1)}, real.Binding{Name: "y", V: ref.NumV(2)}), nil
+			return mk(r, real.Binding{Name: "x", V: ln(1)}, real.Binding{Name: "y", V: ref.NumV(2)}), nil
 		case 1:
-			return mk(r, real.Binding{Name: "x", V: ref.NumV(9)}, real.Binding{Name: "y", V: ref.NumV(3)}), nil
+			return mk(r, real.Binding{Name: "x", V: ln(9, 8)}, real.Binding{Name: "y", V: ref.NumV(3)}), nil
 		case 2:
-			return mk(r, real.Binding{Name: "x", V: ref.StrV("s")}, real.Binding{Name: "y", V: ref.NumV(2)}), nil
+			return mk(r, real.Binding{Name: "x", V: ref.ListV(gen.Str, strs("s")...)}, real.Binding{Name: "y", V: ref.NumV(2)}), nil
 		case 3:
 			return mk(r, real.Binding{Name: "y", V: ref.NumV(2)}), nil
 		default:
-			return mk(r, real.Binding{Name: "x", V: ref.NumV(1)}, real.Binding{Name: "y", V: ref.StrV("2")}), nil
+			return mk(r, real.Binding{Name: "x", V: ref.MapV(gen.Str, gen.Num, ref.StrV("k"), ref.NumV(1))}, real.Binding{Name: "y", V: ref.NumV(2)}), nil
 		}
 	}
 	h := real.StdHost()
